@@ -221,6 +221,14 @@ static void gen_conf_file(plan_t *p, rng_t *r, const char *name, int allow_exec,
     if (kind == 0) { /* empty file */ }
     else if (kind == 1) add_bytes(r, (size_t)rng_range(r, 1, 300), 0);                      /* arbitrary bytes, no magic */
     else {
+        if (rng_chance(r, 1, 10)) {
+            /* the version in the first line is compared with the program's own: long runs of digits, letters or punctuation in it */
+            static const int rl[] = { 126, 127, 128, 129, 200, 240 };
+            int n = rl[rng_below(r, 6)], kind3 = (int)rng_below(r, 3);
+            add(rng_chance(r, 1, 3) ? "<simrun-1." : "<simrun-");
+            for (int z = 0; z < n; z++) add("%c", kind3 == 0 ? '0' + (z * 7 + 9) % 10 : kind3 == 1 ? 'a' + z % 26 : ".-_+"[z % 4]);
+            add(rng_chance(r, 1, 4) ? "\n" : ">\n");
+        } else
         add(rng_chance(r, 1, 12) ? "<simrun-" : rng_chance(r, 1, 12) ? "<simrun-9.9.9beta3>\n" : "<simrun-1.0>\n");
         for (int q = 0; q < nl; q++) {
             int c = (int)rng_below(r, 100);
